@@ -57,6 +57,27 @@ Theorem C03_inner_sliding_roll_feed : forall (V : Type) (w s d : nat) (I : machi
 Proof. exact roll_m_feeds. Qed.
 Print Assumptions C03_inner_sliding_roll_feed.
 
+(* end to end: after ANY outer trace the inner machine inside the composite head is in exactly the state it
+   reaches when run alone on the head's inner trace (the boundary trace bnd_pipe reports and the taps record);
+   special items never reach a machine under a bypass *)
+Theorem C03_inner_state_segment_heads : forall (V Sg : Type) (sg0 : Sg) (nx : Sg -> V -> Sg * list (act V)) (op_ : Sg -> bool)
+  (I : machine V) t slots si,
+  snd (fst (feed (seg_m V Sg sg0 nx op_ I) (slots, si) t)) = fst (feed I si (inner_trace V Sg sg0 nx op_ slots t)).
+Proof. exact seg_run_feeds. Qed.
+Print Assumptions C03_inner_state_segment_heads.
+Theorem C03_inner_state_group_by : forall (V G : Type) (geq : forall a b : G, {a = b} + {a <> b}) (km : V -> G) (I : machine V) t st si,
+  snd (fst (feed (group_m V G geq km I) (st, si) t)) = fst (feed I si (group_inner_trace V G geq km st t)).
+Proof. exact group_run_feeds. Qed.
+Print Assumptions C03_inner_state_group_by.
+Theorem C03_inner_state_sliding_roll : forall (V : Type) (w s d : nat) (I : machine V) t st si,
+  snd (fst (feed (roll_m V I w s d) (st, si) t)) = fst (feed I si (roll_inner_trace V w s d st t)).
+Proof. exact roll_chk_run. Qed.
+Print Assumptions C03_inner_state_sliding_roll.
+Theorem C03_bypass_plain : forall (M : machine item) t s0,
+  fst (feed (bypass_m item special M) s0 t) = fst (feed M s0 (plain_evs t)).
+Proof. exact bypass_run_plain. Qed.
+Print Assumptions C03_bypass_plain.
+
 Theorem C03_every_boundary : forall (P : list op) (t : list iev), wf t -> Forall wf (bnd_pipe P t).
 Proof. exact every_boundary_wf. Qed.
 Print Assumptions C03_every_boundary.
